@@ -9,6 +9,7 @@ import (
 	"fmt"
 	"io/ioutil"
 	"net"
+	"strconv"
 	"strings"
 	"time"
 
@@ -61,6 +62,8 @@ func runNode(focus string) func(s *simrt.Sim) {
 		e.conf = e.genConf(nconn)
 		var modules []string
 		switch focus {
+		case "C07":
+			e.abort = true
 		case "C25":
 			e.hostile = true
 		case "C29":
@@ -74,6 +77,7 @@ func runNode(focus string) func(s *simrt.Sim) {
 			}
 		case "C54":
 			e.accEnc = true
+			e.abort = true
 			modules = []string{"mod_compress"}
 			e.conf.Compress = []string{"GZIP", "BROTLI"}[tp.Draw(2, "compress_cmd")]
 			e.conf.CompressQ = 1 + tp.Draw(9, "compress_q")
@@ -1036,12 +1040,24 @@ func (e *eng) checkC54() {
 }
 
 func tokenIn(list, tok string) bool {
+	// RFC 7231 5.3.4: a coding is acceptable when it (or "*") is listed with a weight above zero
 	for _, t := range strings.Split(list, ",") {
 		t = strings.TrimSpace(t)
+		q := 1.0
 		if i := strings.IndexByte(t, ';'); i >= 0 {
+			for _, par := range strings.Split(t[i+1:], ";") {
+				par = strings.TrimSpace(par)
+				if len(par) > 2 && (par[0] == 'q' || par[0] == 'Q') && par[1] == '=' {
+					if f, err := strconv.ParseFloat(strings.TrimSpace(par[2:]), 64); err == nil {
+						q = f
+					} else {
+						q = 0
+					}
+				}
+			}
 			t = strings.TrimSpace(t[:i])
 		}
-		if strings.EqualFold(t, tok) {
+		if (strings.EqualFold(t, tok) || t == "*") && q > 0 {
 			return true
 		}
 	}
